@@ -4,6 +4,7 @@
 pub struct Estimates {
     pub by_id: BTreeMap<u64, u8>,
     pub incoming: u8,
+    pub valid: bool,
 }
 
 struct CommandEvents {
@@ -16,11 +17,19 @@ impl Exec {
     fn pre_read_estimates(&mut self, k: u8) -> Check<Estimates> {
         self.wait_sketch_quiescent()?;
         let mut estimates = Estimates::default();
-        for (held_k, entry) in &self.model.held {
-            let hash = self.cache.verif_hash_of(&(*held_k as u64));
-            estimates.by_id.insert(entry.id, self.cache.verif_estimate(hash));
+        let cache = &self.cache;
+        let held: Vec<(u8, u64)> = self.model.held.iter().map(|(held_k, entry)| (*held_k, entry.id)).collect();
+        // if reading an estimate panics (broken sketch) the cross-check is skipped: the worker will hit the same panic
+        // itself and that is then reported as what it is, a dead background thread
+        let read = catch_unwind(AssertUnwindSafe(|| {
+            let mut by_id = BTreeMap::new();
+            for (held_k, id) in &held { by_id.insert(*id, cache.verif_estimate(cache.verif_hash_of(&(*held_k as u64)))); }
+            (by_id, cache.verif_estimate(cache.verif_hash_of(&(k as u64))))
+        }));
+        match read {
+            Ok((by_id, incoming)) => { estimates.by_id = by_id; estimates.incoming = incoming; estimates.valid = true; }
+            Err(_) => { estimates.valid = false; }
         }
-        estimates.incoming = self.cache.verif_estimate(self.cache.verif_hash_of(&(k as u64)));
         Ok(estimates)
     }
 
@@ -88,9 +97,10 @@ impl Exec {
             let what = Self::describe(&pending.cmd);
             match pending.cmd {
                 Pending::Put { k, value, weight, ttl, .. } => {
-                    let expected = self.apply_put(k, value, weight, ttl, &events, if many { None } else { estimates.as_ref() }, status)?;
+                    let expected = self.apply_put(k, value, weight, ttl, &events, if many { None } else { estimates.as_ref().filter(|estimates| estimates.valid) }, status)?;
                     if expected != status {
                         let (property, tag) = match (expected, status) {
+                            (St::RejExists, St::Accepted) if !many => ("C07", "C07/put-on-readable"),
                             (St::RejExists, St::Accepted) => ("C05", "C05/put-on-held-at-apply/accepted"),
                             (_, St::RejExists) => ("C07", "C07/put-on-absent/worker"),
                             (St::RejWeight, _) | (_, St::RejWeight) => ("C06", "C06/over-weight-status"),
@@ -241,11 +251,12 @@ impl Exec {
         self.model.now = new_now;
         self.clock.set(nanos as u64);
         self.stats.advances += 1;
+        self.release_sweeper();
         if self.cfg.tick_us > 100_000 { return Ok(()); }
         self.wait_sweep()?;
         // adopt which expired keys this sweep collected; unexpired keys must all still be there (checked by the snapshot comparison)
         let present: BTreeSet<u8> = self.cache.verif_snapshot().store.iter().map(|entry| entry.key as u8).collect();
-        let expired: Vec<u8> = self.model.held.iter().filter(|(_, entry)| self.model.expired(entry)).map(|(k, _)| *k).collect();
+        let expired: Vec<u8> = self.model.held.iter().filter(|(_, entry)| self.model.expired(entry) || entry.deadline == Some(self.model.now)).map(|(k, _)| *k).collect();
         let mut removed = 0;
         for k in expired {
             if !present.contains(&k) {
@@ -325,10 +336,9 @@ impl Exec {
                 if let Some(pending) = self.issue_delete(*k)? {
                     if was_readable {
                         // C04: hidden as soon as delete() returned (here the acknowledgement may or may not be complete)
-                        let expected = self.expect_read(*k);
                         let key = *k as u64;
                         let got = self.call("get", |cache| cache.get(&key))?;
-                        if got != expected { return Err(self.read_failure(ReadKind::Get, *k, got, expected)); }
+                        self.settle_read(ReadKind::Get, *k, got)?;
                     }
                     self.complete_pending(vec![pending], None)?;
                 }
@@ -457,6 +467,7 @@ impl Exec {
 
     pub fn shutdown(&mut self) {
         self.inst.worker_gate.open();
+        self.inst.sweeper_gate.open();
         let _ = catch_unwind(AssertUnwindSafe(|| self.cache.shutdown()));
         verif::install(None);
     }
@@ -472,6 +483,16 @@ pub struct SeqOutcome {
 /// harness synchronises away (sweep waits, consumer quiescence).
 pub fn run_seq_case(case: &SeqCase, policy: &Policy) -> SeqOutcome {
     mark_harness_thread();
+    match catch_unwind(AssertUnwindSafe(|| run_seq_case_inner(case, policy))) {
+        Ok(outcome) => outcome,
+        Err(_) => {
+            verif::install(None);
+            SeqOutcome { stats: CaseStats::default(), failure: Some(Failure::new("INCONCLUSIVE", "harness/panic", "the harness itself panicked while running this case (harness defect, not a verdict about the cache)".to_string())) }
+        }
+    }
+}
+
+fn run_seq_case_inner(case: &SeqCase, policy: &Policy) -> SeqOutcome {
     let mut exec = Exec::new(&case.cfg, policy);
     let mut failure = None;
     for (index, op) in case.ops.iter().enumerate() {
